@@ -77,8 +77,8 @@ Definition C19_convergence_statement : Prop :=
     forall i j x, i < nrep -> j < nrep -> (In x (getr s i) <-> In x (getr s j)).
 
 (* Soundness of the run-time tie (PARTIAL: covers the per-transaction dumps and the final tracked entries;
-   the whole-database dumps, which include built-in entries the model does not track, and the equality of
-   replicas at quiescence are checked on the observations only): whenever the implementation's observations
+   the whole-database dumps, which include built-in entries the model does not track, the equality of
+   replicas at quiescence and the "both sides of a clash" scan are checked on the observations only): whenever the implementation's observations
    agree with the model, the property's executable predicate holds on them. *)
 Theorem C19_agree_implies_property_partial : forall c, agree c = true ->
   pcheck_steps c = true /\
@@ -102,9 +102,9 @@ Theorem C19_pcheck_sound : forall c, pcheck c = true ->
 Proof.
   intros [nrep steps full final] H. unfold pcheck, pcheck_steps in H.
   repeat (apply andb_true_iff in H; let X := fresh "X" in destruct H as [H X]).
-  rewrite forallb_forall in H. rewrite forallb_forall in X1. rewrite forallb_forall in X0.
+  rewrite forallb_forall in H. rewrite forallb_forall in X2. rewrite forallb_forall in X1.
   split; [|split].
   - intros o k snap gen Hin. apply guniqb_sound. exact (H _ Hin).
-  - intros g Hg. apply guniqb_sound. exact (X1 _ Hg).
-  - apply Forall_forall. intros d Hd. apply uniqb_sound. exact (X0 _ Hd).
+  - intros g Hg. apply guniqb_sound. exact (X2 _ Hg).
+  - apply Forall_forall. intros d Hd. apply uniqb_sound. exact (X1 _ Hd).
 Qed.
